@@ -923,6 +923,13 @@ pub fn plan(tier: &str, seed: u64) -> Plan {
             special: r.chance(0.2),
         });
     }
+    // no candidate model at all ("any number of candidate models"): nothing to fit or score,
+    // the dataset must still come back intact and the result is an empty score array
+    for (n, k) in [(5usize, 2usize), (7, 3), (9, 9)] {
+        for nt in [0usize, 2] {
+            cases.push(Case { api: Api::CrossValidate, n, k, nf: 2, nt, layout: Layout::ViewContig, models: 0, faults: vec![], f32acc: false, dyadic: true, val_seed: 3, panic_at: None, special: false });
+        }
+    }
     // panic probes (observation only)
     for n in [5usize, 9] {
         for k in [2usize, 3] {
